@@ -16,22 +16,10 @@ def direct(prog, bid, cell, kinds):
 
 
 def some_arm(bi, call_bb):
-    """block entered when the Option returned by the call at call_bb is Some (None if not a simple match)"""
-    t = bi.body.blocks[call_bb].term
-    if t.dest is None or not t.dest.is_local() or t.target is None:
-        return None
-    nb = bi.body.blocks[t.target]
-    sw = nb.term
-    if sw.k != "switch":
-        return None
-    for s in nb.stmts:
-        if s.k == "assign" and s.rv.k == "discr" and s.rv.place.is_local() and s.rv.place.local == t.dest.local:
-            arms = dict(sw.arms)
-            if 1 in arms:
-                return bi._skip_false(arms[1])
-            if 0 in arms:
-                return bi._skip_false(sw.otherwise)
-    return None
+    """block entered when the Option returned by the call at call_bb is Some (None if there is no single such place);
+    `if let`, `match`, `?` and `is_some()` are the same test (mapstate.presence_switches)"""
+    from mapstate import some_entry
+    return some_entry(bi, call_bb)
 
 
 def deferred_pairing(prog, bi, e, partners):
@@ -282,15 +270,33 @@ def r02_4(prog, out):
                     n += 1
                     out.violation("%s:%s" % (prog.short(b.id), t.callee.path.split("::")[-1]), bi.loc(bb),
                                   "ack ids are looked up inside %s(): the first id that is not outstanding ends the whole batch, the ids after it are silently ignored" % t.callee.path.split("::")[-1])
-        # lookups by ack id: remove(&id) / entry(id)
-        for e in [x for x in prog.effects(b.id) if not x.chain and x.touches(messages) and x.kind in (L.REMOVE_KINDS | {"handle"})]:
+        # lookups by ack id: remove(&id) / entry(id) / get_mut(&id) / get(&id) / contains_key(&id)
+        from mapstate import presence_switches, LOOKUPS
+        seen_lookup = set()
+        for e in [x for x in prog.effects(b.id) if not x.chain and x.touches(messages) and x.kind in (L.REMOVE_KINDS | {"handle", "read"})]:
             t = bi.call_at(e.bb)
+            if t.k != "call" or t.callee is None or e.bb in seen_lookup:
+                continue
             p = t.callee.path
+            last = p.split("::")[-1]
             if p.endswith("HashMap::<K, V, S, A>::remove"):
-                arm = some_arm(bi, e.bb)
-            elif p.endswith("HashMap::<K, V, S, A>::entry"):
-                arm = occupied_arm(bi, e.bb)
+                lk = "option"
+            elif "HashMap::<K, V, S, A>::" in p and last in LOOKUPS:
+                lk = LOOKUPS[last]
             else:
+                continue
+            seen_lookup.add(e.bb)
+            sws = presence_switches(bi, e.bb, lk)
+            found = [pt for (_, pt, _) in sws if pt is not None]
+            arm = bi._skip_false(found[0]) if len(found) == 1 else None
+            missing = [at for (_, _, at) in sws if at not in (None, "self")]
+            found_region = set()
+            for (sw, pt, _) in sws:
+                if pt is not None:
+                    found_region |= bi.cfg.edge_dominated(sw, pt)
+            # a second lookup of the same id under the `found` arm of an earlier one (get_mut .. then remove) asks nothing new
+            _absent, present_all = __import__("mapstate").regions(prog, bi, messages)
+            if not found and e.bb in present_all:
                 continue
             ks = Slicer(prog).of(b.id, t.args[1]) if len(t.args) > 1 else None
             if ks is not None and any("BTreeSet" in c for c in ks.calls):
@@ -319,17 +325,14 @@ def r02_4(prog, out):
                 if body_blocks is not None and x.bb not in body_blocks:
                     continue
                 muts.append(x)
-            bad = [x for x in muts if not bi.cfg.dominates(arm, x.bb)]
+            bad = [x for x in muts if x.bb not in found_region and not bi.cfg.dominates(arm, x.bb)]
             # the not-found arm must go on with the next id: it may not leave the loop
             stops = None
             if loop:
                 h = sorted(loop)[-1]
                 lb = bi.cfg.loops()[h]
-                sw_bb = bi.body.blocks[e.bb].term.target
-                for s in bi.cfg.succ[sw_bb]:
-                    if bi._skip_false(s) == arm or s == arm:
-                        continue
-                    # from the other arm: can an exit of the loop be reached without passing the header?
+                for s in missing:
+                    # from the not-found arm: can an exit of the loop be reached without passing the header?
                     exits = {x for x in bi.cfg.reach if x not in lb}
                     pth = bi.cfg.path(s, exits, avoid={h})
                     if pth is not None:
